@@ -6,13 +6,17 @@ Theorems about the model `Model/VarTypes.lean` (+ `Model/DeclCfg.lean` for the s
 under the TypeScript-subset semantics (`Mem`; trusted base). As in C10, the references `Schema.__OperationInput.N`
 are interpreted by an arbitrary leaf interpretation: `hL : Mem e v (L n) ↔ R n v` says that the reference to the
 named input type `n` denotes the set `R n` (delivered by C10's alias exactness for the input namespace + name
-resolution). `R` = canonical explicit values of the named type; `RC ⊇ R` = values the server's coercion accepts.
+resolution — discharged in the closed forms at the end of this file). `R` = canonical explicit values of the named type;
+`RC ⊇ R` = values the server's coercion accepts.
 -/
 import NitroVerif.Model.VarTypes
 import NitroVerif.Props.C10
+import NitroVerif.Props.C10Closed
+import NitroVerif.Lemmas.DeclsClosedCoerce
+import NitroVerif.Lemmas.DeclsClosedInduct
 namespace NitroVerif.Props.C09
 open NitroVerif.Gql NitroVerif.Ts NitroVerif.DeclCfg NitroVerif.SchemaDecls NitroVerif.RefTypes NitroVerif.VarTypes
-open NitroVerif.Props.C10
+open NitroVerif.Props.C10 NitroVerif.Coerce
 
 variable {e : Env}
 
@@ -32,22 +36,11 @@ theorem scalar_target_table (t send receive ro ri oo oi : String) :
     (ScalarCfg.separate ro ri oo oi).getType .resolverOutput = ro :=
   ⟨rfl, rfl, rfl, rfl, rfl, rfl, rfl, rfl, rfl, rfl, rfl, rfl⟩
 
-/-- the canonical explicit assignments for `vars` (omission of nullable variables iff `opt`), over leaf sets `R` -/
-def ExplicitP (R : Name → J → Prop) (opt : Bool) (vars : List VarDef) (v : J) : Prop :=
-  ∃ kvs, v = .obj kvs ∧
-    RecordSpec (vars.map fun d => (d.name, !d.ty.isNonNull && opt, Conf R d.ty)) kvs
-
-/-- spec input coercion of a PRESENT value (permissive: a bare item is accepted for a list), over leaf sets `RC` -/
-def CoerceP (RC : Name → J → Prop) : GType → J → Prop
-  | .named n _, v => v = .null ∨ RC n v
-  | .list t _, v => v = .null ∨ (∃ xs, v = .arr xs ∧ ∀ x ∈ xs, CoerceP RC t x) ∨ ((∀ xs, v ≠ .arr xs) ∧ CoerceP RC t v)
-  | .nonNull t, v => v ≠ .null ∧ CoerceP RC t v
-
-/-- CoerceVariableValues succeeds on the record -/
-def CoercibleP (RC : Name → J → Prop) (vars : List VarDef) (v : J) : Prop :=
-  ∃ kvs, v = .obj kvs ∧ ∀ d ∈ vars,
-    (J.get kvs d.name = .absent ∧ (d.default.isSome = true ∨ d.ty.isNonNull = false)) ∨
-    (J.get kvs d.name ≠ .absent ∧ CoerceP RC d.ty (J.get kvs d.name))
+/-! The propositions of the specification — `ExplicitP R opt vars v` (the canonical explicit assignments, omission of
+nullable variables iff `opt`, over leaf sets `R`), `CoerceP RC ty v` (spec input coercion of a present value, permissive:
+a bare item is accepted for a list) and `CoercibleP RC vars v` (CoerceVariableValues succeeds) — are defined in
+`Lemmas/DeclsClosedCoerce.lean` (namespace `NitroVerif.Coerce`), next to their connection with the executable
+specification `Spec/Coerce.lean`. -/
 
 /-- EXACTNESS of the Variables type: it admits exactly the canonical explicit assignments. -/
 theorem vars_exact (L : Name → Ty) (R : Name → J → Prop) (hL : ∀ n v, Mem e v (L n) ↔ R n v)
@@ -91,56 +84,12 @@ theorem C09_complete (L : Name → Ty) (R : Name → J → Prop) (hL : ∀ n v, 
 
 /-- a canonical conforming present value is accepted by input coercion -/
 theorem conf_coercible (R RC : Name → J → Prop) (hsub : ∀ n v, R n v → RC n v) (hnull : ∀ n, ¬ R n .null) :
-    ∀ (ty : GType) (v : J), Conf R ty v → CoerceP RC ty v := by
-  have core : ∀ (ty : GType) (v : J), ConfCore R ty v → v ≠ .null ∧
-      (ty.isNonNull = false → CoerceP RC ty v) ∧ (∀ t, ty = .nonNull t → CoerceP RC t v) := by
-    intro ty
-    induction ty with
-    | named n p =>
-      intro v h
-      refine ⟨fun hv => hnull n (hv ▸ h), fun _ => Or.inr (hsub n v h), fun t ht => by cases ht⟩
-    | list t p ih =>
-      rintro v ⟨xs, rfl, hx⟩
-      refine ⟨by simp, fun _ => Or.inr (Or.inl ⟨xs, rfl, ?_⟩), fun t' ht => by cases ht⟩
-      intro x hxs
-      rcases hx x hxs with ⟨hnn, rfl⟩ | hc
-      · cases t with
-        | named n p => exact Or.inl rfl
-        | list t' p => exact Or.inl rfl
-        | nonNull t' => simp [GType.isNonNull] at hnn
-      · have := ih x hc
-        cases t with
-        | named n p => exact this.2.1 rfl
-        | list t' p => exact this.2.1 rfl
-        | nonNull t' => exact ⟨this.1, this.2.2 t' rfl⟩
-    | nonNull t ih =>
-      intro v h
-      have := ih v h
-      refine ⟨this.1, fun hnn => by simp [GType.isNonNull] at hnn, ?_⟩
-      intro t' ht; cases ht
-      cases t with
-      | named n p => exact this.2.1 rfl
-      | list t' p => exact this.2.1 rfl
-      | nonNull t' => exact ⟨this.1, this.2.2 t' rfl⟩
-  intro ty v h
-  rcases h with ⟨hnn, rfl⟩ | hc
-  · cases ty with
-    | named n p => exact Or.inl rfl
-    | list t p => exact Or.inl rfl
-    | nonNull t => simp [GType.isNonNull] at hnn
-  · have := core ty v hc
-    cases ty with
-    | named n p => exact this.2.1 rfl
-    | list t p => exact this.2.1 rfl
-    | nonNull t => exact ⟨this.1, this.2.2 t rfl⟩
+    ∀ (ty : GType) (v : J), Conf R ty v → CoerceP RC ty v :=
+  conf_coerceP R RC hsub hnull
 
 theorem confCore_not_absent (R : Name → J → Prop) (habs : ∀ n, ¬ R n .absent) :
-    ∀ ty, ¬ ConfCore R ty .absent := by
-  intro ty
-  induction ty with
-  | named n p => exact habs n
-  | list t p _ => rintro ⟨xs, h, _⟩; cases h
-  | nonNull t ih => exact ih
+    ∀ ty, ¬ ConfCore R ty .absent :=
+  confCore_absent R habs
 
 /-- SOUNDNESS: any object admitted by `<Op>Variables` supplies, for each declared variable, a value the server's
     variable coercion accepts (leaf sets: canonical values `R` are coercible, `R ⊆ RC`; no named input type's
@@ -209,17 +158,268 @@ example : Mem Env.empty (.obj []) (varsTsL (fun n => .ref n) true [{ name := "a"
     ⟨[], rfl, by simp [RecordSpec, J.get, GType.isNonNull]⟩
 
 
+/-! ### the executable specification and the propositions are the same sets -/
+
+/-- CONNECTION, explicit side: `Spec/Coerce.lean`'s executable `Explicit` (∃ fuel, `explicitVars`) — what the O stream
+    evaluates — is exactly `ExplicitP` with `Ref_OperationInput` at the leaves and the configuration's option. -/
+theorem C09_explicit_spec_iff (c : Cfg) (s : Schema) (vars : List VarDef) (v : J) :
+    Coerce.Explicit c s vars v ↔ ExplicitP (Ref c s .operationInput) c.optionalInput vars v :=
+  explicit_iff c s vars v
+
+/-- CONNECTION, coercion side, wrapper level: some fuel makes the executable `coerceVal` accept `v` at a type position
+    iff `CoerceP` holds (null / array of coercible items / bare item for a list / non-null), the NAMED types being read by
+    `coerceVal` itself (`CoerceNamed c s n v` = `v` is not null and `coerceVal` accepts it at `n`). -/
+theorem C09_coerceVal_spec_iff (c : Cfg) (s : Schema) (ty : GType) (v : J) :
+    (∃ k, coerceVal c s k ty v = true) ↔ CoerceP (CoerceNamed c s) ty v :=
+  coerceVal_iff c s ty v
+
+/-- CONNECTION, coercion side: `Spec/Coerce.lean`'s executable `Coercible` (∃ fuel, `coercibleVars`) is exactly
+    `CoercibleP` over `CoerceNamed`. -/
+theorem C09_coercible_spec_iff (c : Cfg) (s : Schema) (vars : List VarDef) (v : J) :
+    Coerce.Coercible c s vars v ↔ CoercibleP (CoerceNamed c s) vars v :=
+  coercible_iff c s vars v
+
+/-- `CoerceNamed`, kind by kind (GraphQL spec §3 "Input Coercion" of each kind), with `CoerceP` over `CoerceNamed` itself at
+    the fields — the executable `coerceVal` at a named type is exactly:
+    a SCALAR accepts the non-null, present values of its configured INPUT text (read globally);
+    an ENUM the names of its values;
+    an INPUT OBJECT the records without unknown keys in which every missing field is nullable or has a default and every
+    present field is coercible;
+    object / interface / union types and undefined names accept nothing. -/
+theorem C09_coerceNamed_kinds (c : Cfg) (s : Schema) (n : Name) (v : J) :
+    (s.typeDef? n = none → ¬ CoerceNamed c s n v) ∧
+    (∀ td, s.typeDef? n = some td →
+      (td.kind = .scalar → (CoerceNamed c s n v ↔ v ≠ .null ∧ v ≠ .absent ∧
+        ∃ sc, scalarType? c s.items n = some sc ∧ Mem Env.empty v (c.parseOf (sc.getType .operationInput)))) ∧
+      (td.kind = .enum → (CoerceNamed c s n v ↔ ∃ x ∈ td.values, v = .str x.name)) ∧
+      (td.kind = .input → (CoerceNamed c s n v ↔ ∃ kvs, v = .obj kvs ∧
+        (∀ kv ∈ kvs, kv.2 = .absent ∨ ∃ f ∈ td.inputs, f.name = kv.1) ∧
+        ∀ f ∈ td.inputs,
+          (J.get kvs f.name = .absent ∧ (f.default.isSome = true ∨ f.ty.isNonNull = false)) ∨
+          (J.get kvs f.name ≠ .absent ∧ CoerceP (CoerceNamed c s) f.ty (J.get kvs f.name)))) ∧
+      (td.kind = .object ∨ td.kind = .interface ∨ td.kind = .union → ¬ CoerceNamed c s n v)) :=
+  ⟨fun h => coerceNamed_unknown c s h, fun _ h =>
+    ⟨fun hk => coerceNamed_scalar c s h hk, fun hk => coerceNamed_enum c s h hk, fun hk => coerceNamed_input c s h hk,
+      fun hk => coerceNamed_output c s h hk⟩⟩
+
+/-- the two executable specifications fit together: every canonical value of a named input type is coercible and is
+    neither `null` nor `undefined`, provided no configured scalar INPUT text admits `null` / `undefined` -/
+theorem C09_canonical_coercible (c : Cfg) (s : Schema) (hs : ScalarsStrict c s) (n : Name) (v : J)
+    (h : Ref c s .operationInput n v) : CoerceNamed c s n v ∧ v ≠ .null ∧ v ≠ .absent := by
+  refine ⟨ref_coerceNamed c s hs n v h, ?_, ?_⟩
+  · rintro rfl; exact ref_not_null c s hs n h
+  · rintro rfl; exact ref_not_absent c s hs n h
+
+/-- `Explicit ⊆ Coercible` on the executable specifications themselves (all variable definitions, all values) -/
+theorem C09_explicit_coercible (c : Cfg) (s : Schema) (hs : ScalarsStrict c s) (vars : List VarDef) (v : J)
+    (h : Coerce.Explicit c s vars v) : Coerce.Coercible c s vars v :=
+  explicit_coercible c s hs vars v h
+
+/-- the side condition holds for the built-in scalars (texts `number`, `string`, `boolean`, `string | number`) -/
+example : ¬ Mem Env.empty .null (.union [.prim "string", .prim "number"]) ∧
+    ¬ Mem Env.empty .absent (.union [.prim "string", .prim "number"]) := by
+  constructor <;>
+  · intro h
+    obtain ⟨t, ht, hm⟩ := mem_union_iff.1 h
+    simp only [List.mem_cons, List.mem_nil_iff, or_false] at ht
+    rcases ht with rfl | rfl <;>
+      (rw [mem_prim_iff (by simp [Ty.isOpaque])] at hm; simp [primMem, J.isStr, J.isNum] at hm)
+
+/-! ### closed forms on the operation file linked with the generated schema file
+
+`op` is any FLAT TypeScript file (no namespace statement) whose only star import is `import type * as Schema from m`
+and whose first top-level declaration of `name` (= `<Op>Variables`) is `type <Op>Variables = varsTs c vars` — the shape
+of the operation declaration files the printer emits (imports, type aliases, `declare const`, `export`); the schema
+file `F` the model emits is supplied as module `m`. `hvars`: the operation was accepted — every variable's named type
+is a defined scalar / enum / input object. -/
+
+section closed
+variable (c : Cfg) (doc : TsDoc) (F : File) (hF : schemaFile c doc = .ok F) (ok : DocOK c doc)
+variable (op : File) (m name : String) (ex : Bool) (vars : List VarDef)
+variable (hflat : op.all (fun s => !s.isNamespace) = true) (himp : starImports op = [(m, schemaNs)])
+variable (hdecl : (Stmt.declsList [] op).find? (isDeclAt [] name) = some ⟨[], name, ex, [], varsTs c vars⟩)
+variable (hvars : ∀ d ∈ vars, ∃ td ∈ typeDefsOf doc, td.name = d.ty.unwrapped ∧ kindFits td.kind .operationInput = true)
+
+include hF ok hflat himp in
+/-- the reference `Schema.__OperationInput.T` written in the operation file denotes exactly `Ref_OperationInput(T)`
+    (C10's closed form, through the module link and the qualified route) -/
+theorem C09_input_ref_exact (td : TypeDef) (hm : td ∈ typeDefsOf doc)
+    (hfit : kindFits td.kind .operationInput = true) (v : J) :
+    Mem (Env.ofFiles op [(m, F)]) v (globalise (Decls.ofFiles op [(m, F)]) [] [] (varLeaf td.name))
+      ↔ Ref c ⟨doc⟩ .operationInput td.name v := by
+  have H : Hosted (Env.ofFiles op [(m, F)]).decls [schemaNs] F := hosted_ofFiles op m schemaNs F hflat himp
+  obtain ⟨ty, hb⟩ := fits_body hF .operationInput hm hfit
+  have hq := hosted_qualified_outer hF ok H .operationInput (sc := []) (A := schemaNs)
+    (ofFiles_resolveNs op m schemaNs F himp) hm hb
+  have hg : globalise (Decls.ofFiles op [(m, F)]) [] [] (varLeaf td.name)
+      = absRef c doc [schemaNs] .operationInput td.name := by
+    simp only [varLeaf, globalise, List.contains_nil, Bool.false_eq_true, if_false]
+    rw [show (Decls.ofFiles op [(m, F)]) = (Env.ofFiles op [(m, F)]).decls from rfl, hq]
+    rfl
+  rw [hg]
+  exact hosted_alias_exact hF ok H .operationInput (fun _ _ _ => rfl) hm hfit v
+
+include hF ok hflat himp hdecl hvars in
+/-- EXACTNESS, CLOSED FORM: in the operation file linked with the generated schema file, the type `<Op>Variables`
+    admits exactly the explicit canonical assignments of the executable specification (`Spec/Coerce.lean`). -/
+theorem C09_vars_exact_closed (v : J) :
+    Mem (Env.ofFiles op [(m, F)]) v (globalise (Decls.ofFiles op [(m, F)]) [] [] (.ref name))
+      ↔ Coerce.Explicit c ⟨doc⟩ vars v := by
+  have hfl := ofFiles_findLocal_top op m schemaNs F himp hdecl
+  have hres := resolveRef_of_findLocal hfl
+  have hg : globalise (Decls.ofFiles op [(m, F)]) [] [] (.ref name) = .other "abs" [name] := by
+    simp only [globalise, List.contains_nil, Bool.false_eq_true, if_false, hres]
+    rfl
+  have hbody : (Env.ofFiles op [(m, F)]).decls.body? [name]
+      = some ([], globalise (Decls.ofFiles op [(m, F)]) [] [] (varsTs c vars)) := by
+    have : (Env.ofFiles op [(m, F)]).decls = Decls.ofFiles op [(m, F)] := rfl
+    simp [Decls.body?, this, hfl]
+  rw [hg, mem_alias_iff hbody, varsTs, globalise_varsTsL,
+    vars_exact _ (fun n x => Mem (Env.ofFiles op [(m, F)]) x (globalise (Decls.ofFiles op [(m, F)]) [] [] (varLeaf n)))
+      (fun _ _ => Iff.rfl),
+    C09_explicit_spec_iff]
+  have key : ∀ kvs, ∀ d ∈ vars,
+      (Conf (fun n x => Mem (Env.ofFiles op [(m, F)]) x (globalise (Decls.ofFiles op [(m, F)]) [] [] (varLeaf n))) d.ty
+          (J.get kvs d.name) ↔ Conf (Ref c ⟨doc⟩ .operationInput) d.ty (J.get kvs d.name)) := by
+    intro kvs d hd
+    apply conf_congr
+    intro y _
+    obtain ⟨td, hm, hn, hfit⟩ := hvars d hd
+    rw [← hn]
+    exact C09_input_ref_exact c doc F hF ok op m hflat himp td hm hfit y
+  unfold ExplicitP
+  constructor
+  · rintro ⟨kvs, rfl, hr⟩
+    exact ⟨kvs, rfl, (recordSpec_congr_get [] vars (fun d => d.name) (fun d => !d.ty.isNonNull && c.optionalInput)
+      _ _ kvs (key kvs)).1 hr⟩
+  · rintro ⟨kvs, rfl, hr⟩
+    exact ⟨kvs, rfl, (recordSpec_congr_get [] vars (fun d => d.name) (fun d => !d.ty.isNonNull && c.optionalInput)
+      _ _ kvs (key kvs)).2 hr⟩
+
+include hF ok hflat himp hdecl hvars in
+/-- COMPLETENESS, CLOSED FORM: every explicit canonical assignment (executable specification) is admitted by
+    `<Op>Variables` in the operation file linked with the generated schema file. -/
+theorem C09_complete_closed (v : J) (h : Coerce.Explicit c ⟨doc⟩ vars v) :
+    Mem (Env.ofFiles op [(m, F)]) v (globalise (Decls.ofFiles op [(m, F)]) [] [] (.ref name)) :=
+  (C09_vars_exact_closed c doc F hF ok op m name ex vars hflat himp hdecl hvars v).2 h
+
+include hF ok hflat himp hdecl hvars in
+/-- SOUNDNESS, CLOSED FORM: every value admitted by `<Op>Variables` in the operation file linked with the generated
+    schema file is accepted by the server's variable coercion (executable specification `Coercible`), provided no
+    configured scalar input text admits `null` / `undefined`. -/
+theorem C09_sound_closed (hs : ScalarsStrict c ⟨doc⟩) (v : J)
+    (h : Mem (Env.ofFiles op [(m, F)]) v (globalise (Decls.ofFiles op [(m, F)]) [] [] (.ref name))) :
+    Coerce.Coercible c ⟨doc⟩ vars v :=
+  explicit_coercible c ⟨doc⟩ hs vars v
+    ((C09_vars_exact_closed c doc F hF ok op m name ex vars hflat himp hdecl hvars v).1 h)
+
+include hF ok hflat himp hdecl hvars in
+/-- REQUIRED, CLOSED FORM: in an admitted record a NON-NULL variable (with or without default) is present and not `null`. -/
+theorem C09_required_closed (hs : ScalarsStrict c ⟨doc⟩) (kvs : List (String × J))
+    (h : Mem (Env.ofFiles op [(m, F)]) (.obj kvs) (globalise (Decls.ofFiles op [(m, F)]) [] [] (.ref name)))
+    (d : VarDef) (hd : d ∈ vars) (hnn : d.ty.isNonNull = true) :
+    J.get kvs d.name ≠ .absent ∧ J.get kvs d.name ≠ .null :=
+  explicitP_required _ (ref_not_null c ⟨doc⟩ hs) (ref_not_absent c ⟨doc⟩ hs) c.optionalInput vars kvs
+    ((C09_explicit_spec_iff c ⟨doc⟩ vars _).1
+      ((C09_vars_exact_closed c doc F hF ok op m name ex vars hflat himp hdecl hvars _).1 h)) d hd hnn
+
+include hF ok hflat himp hdecl hvars in
+/-- OPTIONAL IFF, CLOSED FORM: an admitted record may omit a variable only if the variable is nullable AND
+    `allowUndefinedAsOptionalInput` is on; conversely, with the option on and every variable nullable, `{}` is admitted. -/
+theorem C09_optional_iff_closed (hs : ScalarsStrict c ⟨doc⟩) :
+    (∀ kvs, Mem (Env.ofFiles op [(m, F)]) (.obj kvs) (globalise (Decls.ofFiles op [(m, F)]) [] [] (.ref name)) →
+      ∀ d ∈ vars, J.get kvs d.name = .absent → c.optionalInput = true ∧ d.ty.isNonNull = false) ∧
+    (c.optionalInput = true → (∀ d ∈ vars, d.ty.isNonNull = false) →
+      Mem (Env.ofFiles op [(m, F)]) (.obj []) (globalise (Decls.ofFiles op [(m, F)]) [] [] (.ref name))) := by
+  constructor
+  · intro kvs h d hd hx
+    exact explicitP_omitted _ (ref_not_absent c ⟨doc⟩ hs) c.optionalInput vars kvs
+      ((C09_explicit_spec_iff c ⟨doc⟩ vars _).1
+        ((C09_vars_exact_closed c doc F hF ok op m name ex vars hflat himp hdecl hvars _).1 h)) d hd hx
+  · intro ho hall
+    apply (C09_vars_exact_closed c doc F hF ok op m name ex vars hflat himp hdecl hvars _).2
+    apply (C09_explicit_spec_iff c ⟨doc⟩ vars _).2
+    rw [ho]
+    exact explicitP_empty _ vars hall
+
+end closed
+
+/-- non-vacuity of the closed forms: the example schema of C10 (`exCfg`, `exDoc`, `exFile`), an operation file of the
+    printed shape with `query Q($a: [In!], $c: Color!)`, and the empty-record / explicit assignment -/
+def exVars : List VarDef :=
+  [{ name := "a", ty := .list (.nonNull (.named "In" {})) {} }, { name := "c", ty := .nonNull (.named "Color" {}) }]
+
+def exOp : File :=
+  [.import "@graphql-typed-document-node/core" true (.named [("TypedDocumentNode", "TypedDocumentNode")]),
+   .import "./schema" true (.star schemaNs),
+   .type false "QResult" [] (.obj []),
+   .type false "QVariables" [] (varsTs exCfg exVars),
+   .const true true "Q" (some (.app (.ref "TypedDocumentNode") [.ref "QResult", .ref "QVariables"])) none,
+   .exportDefault "Q"]
+
+theorem exScalars :
+    scalarTypes exCfg exDoc = [("Int", .single "number"), ("Date", .sendReceive "Date | string" "string")] := by
+  decide
+
+/-- non-vacuity of `ScalarsStrict`: it holds for the example configuration (input texts `number`, `Date | string`) -/
+theorem exCfg_strict : ScalarsStrict exCfg ⟨exDoc⟩ := by
+  intro n sc h
+  simp only [scalarType?, exScalars] at h
+  have hprim : ∀ (p : String) (v : J), (Ty.prim p).isOpaque Env.empty = false → primMem p v = false →
+      ¬ Mem Env.empty v (.prim p) := fun p v ho hp hm => by
+    rw [mem_prim_iff ho, hp] at hm; cases hm
+  by_cases h1 : n = "Int"
+  · subst h1
+    simp at h; subst h
+    have : exCfg.parseOf ((ScalarCfg.single "number").getType .operationInput) = .prim "number" := by
+      simp [Cfg.parseOf, exCfg, builtinParses, ScalarCfg.getType]
+    rw [this]
+    exact ⟨hprim _ _ (by simp [Ty.isOpaque]) rfl, hprim _ _ (by simp [Ty.isOpaque]) rfl⟩
+  · by_cases h2 : n = "Date"
+    · subst h2
+      simp at h; subst h
+      have : exCfg.parseOf ((ScalarCfg.sendReceive "Date | string" "string").getType .operationInput)
+          = .union [.ref "Date", .prim "string"] := by
+        simp [Cfg.parseOf, exCfg, ScalarCfg.getType]
+      rw [this]
+      constructor <;>
+      · intro hm
+        obtain ⟨t, ht, hm⟩ := mem_union_iff.1 hm
+        simp only [List.mem_cons, List.mem_nil_iff, or_false] at ht
+        rcases ht with rfl | rfl
+        · have := mem_unresolved_ref_iff.1 hm; cases this
+        · exact hprim _ _ (by simp [Ty.isOpaque]) rfl hm
+    · have e1 : ("Int" == n) = false := by simpa using Ne.symm h1
+      have e2 : ("Date" == n) = false := by simpa using Ne.symm h2
+      simp [List.find?, e1, e2] at h
+
+example : ∀ v, Mem (Env.ofFiles exOp [("./schema", exFile)]) v
+      (globalise (Decls.ofFiles exOp [("./schema", exFile)]) [] [] (.ref "QVariables")) → Coerce.Coercible exCfg ⟨exDoc⟩ exVars v :=
+  C09_sound_closed exCfg exDoc exFile exFile_ok exDoc_ok exOp "./schema" "QVariables" false exVars
+    (by decide) (by decide) (by simp [exOp, Stmt.declsList, Stmt.decls, isDeclAt]) (by decide) exCfg_strict
+
+example : ∀ v, Mem (Env.ofFiles exOp [("./schema", exFile)]) v
+      (globalise (Decls.ofFiles exOp [("./schema", exFile)]) [] [] (.ref "QVariables"))
+    ↔ Coerce.Explicit exCfg ⟨exDoc⟩ exVars v :=
+  C09_vars_exact_closed exCfg exDoc exFile exFile_ok exDoc_ok exOp "./schema" "QVariables" false exVars
+    (by decide) (by decide) (by simp [exOp, Stmt.declsList, Stmt.decls, isDeclAt]) (by decide)
+
 /-! ### OPEN — carried by K/O only
 
-* The closed forms `Mem (Env.ofFiles opFile [(m, schemaFile c S)]) v (ref "<Op>Variables") → Coercible c S vars v` and
-  `Explicit c S vars v → Mem …`, i.e. the instantiation of the leaf interpretation `L n = globalise … (qref [Schema,
-  __OperationInput, n])`, `R n = Ref c S .operationInput n` (C10's exactness for the input namespace through the
-  module link) and of `RC` with the executable `Coerce.coerceVal`. The O stream evaluates exactly these closed forms
-  on the REAL operation file linked with the REAL schema file.
-* `Spec/Coerce.lean`'s fuel-indexed executable `coercibleVars` / `explicitVars` versus the propositions `CoercibleP` /
-  `ExplicitP` used here (same clauses; not connected by a theorem).
-* The side conditions `hnull` / `habs` (no canonical set of a named input type contains null / undefined) exclude
-  scalar input texts such as `unknown`; the harness puts operations that reach such a scalar outside the O domain.
+PROVED since: the closed forms on the operation file linked with the generated schema file (`C09_vars_exact_closed`,
+`C09_sound_closed`, `C09_complete_closed`, leaf `C09_input_ref_exact` = C10's closed form through the module link), and
+the connection of `Spec/Coerce.lean`'s fuel-indexed executables with the propositions (`C09_explicit_spec_iff`,
+`C09_coercible_spec_iff`, `C09_coerceVal_spec_iff`, `C09_canonical_coercible`, `C09_explicit_coercible`).
+
+Still open:
+* the operation declaration FILE is not modelled as a whole (only the `<Op>Variables` alias, `Model/VarTypes.lean`); the
+  closed forms take its shape as hypotheses — flat, one star import `Schema`, first declaration of `<Op>Variables` is the
+  model's type — which K checks on the real parsed file (the alias) and `tsparse` (the shape).
+* `hvars` (every variable's named type is a defined scalar / enum / input object) is what `check_operation` guarantees
+  (C05); not re-derived here.
+* The side condition `ScalarsStrict` (no configured scalar input text admits null / undefined) excludes scalar input
+  texts such as `unknown`; the harness puts operations that reach such a scalar outside the O domain. `DocOK` as in C10
+  (incl. the open finding on `__tmp_` / generated identifiers inside scalar texts).
 -/
 
 end NitroVerif.Props.C09
